@@ -579,4 +579,138 @@ theorem loadLines_distinct (lines : List Str) : DistinctF (loadLines lines) :=
 
 theorem loadTree_distinct (text : Str) : DistinctF (loadTree text) := loadLines_distinct _
 
+
+
+
+theorem isSpace_blank : isSpace ' ' = true := by decide
+
+theorem lstrip_blanks (k : Nat) (t : Str) : lstrip (List.replicate k ' ' ++ t) = lstrip t := by
+  induction k with
+  | zero => rfl
+  | succ k ih =>
+    simp only [List.replicate_succ, List.cons_append, lstrip, List.dropWhile_cons, isSpace_blank, if_true]
+    exact ih
+
+theorem lstrip_length_le (t : Str) : (lstrip t).length ≤ t.length := by
+  unfold lstrip
+  exact (List.dropWhile_sublist _).length_le
+
+theorem indent_blanks (k : Nat) (t : Str) : indent (List.replicate k ' ' ++ t) = k + indent t := by
+  unfold indent
+  rw [lstrip_blanks]
+  have := lstrip_length_le t
+  simp only [List.length_append, List.length_replicate]
+  omega
+
+theorem words_blanks (k : Nat) (t : Str) : words (List.replicate k ' ' ++ t) = words t := by
+  unfold words
+  induction k with
+  | zero => rfl
+  | succ k ih =>
+    simp only [List.replicate_succ, List.cons_append, wordsAux, isSpace_blank, if_true]
+    exact ih
+
+theorem normLine_blanks {t : Str} (h : NormalText t) (k : Nat) :
+    normLine (List.replicate k ' ' ++ t) = some (k, t) := by
+  unfold NormalText normLine at *
+  rw [words_blanks, indent_blanks]
+  cases hw : words t with
+  | nil => rw [hw] at h; cases h
+  | cons w ws =>
+    rw [hw] at h
+    simp only [Option.some.injEq, Prod.mk.injEq] at h ⊢
+    exact ⟨by omega, h.2⟩
+
+/-! ### reading the printed diff back -/
+
+theorem pathsT_node (t : Str) (cs : Forest) : pathsT (.node t cs) = [t] :: (pathsF cs).map (t :: ·) := by
+  simp [pathsT]
+theorem pathsF_cons' (x : Tree) (r : Forest) : pathsF (x :: r) = pathsT x ++ pathsF r := by
+  simp [pathsF]
+theorem renderT_node (d : Nat) (t : Str) (cs : Forest) :
+    renderT d (.node t cs) = (List.replicate (2 * d) ' ' ++ t) :: renderF (d + 1) cs := by simp [renderT]
+theorem renderF_cons (d : Nat) (x : Tree) (r : Forest) : renderF d (x :: r) = renderT d x ++ renderF d r := by
+  simp [renderF]
+theorem renderF_nil (d : Nat) : renderF d [] = [] := by simp [renderF]
+
+/-- sections at depth `d` or deeper: what a line printed at depth `d` walks up past -/
+abbrev Deeper (d : Nat) (p : Nat × Str) : Bool := decide (2 * d ≤ p.1)
+
+/-- ancestor texts of a chain, outermost first -/
+abbrev anc (st : List (Nat × Str)) : List Str := st.reverse.map (·.2)
+
+theorem dropWhile_weaken {α} (p q : α → Bool) (h : ∀ x, p x = true → q x = true) (l : List α) :
+    (l.dropWhile p).dropWhile q = l.dropWhile q := by
+  induction l with
+  | nil => rfl
+  | cons a l ih =>
+    by_cases hp : p a = true
+    · simp [hp, h a hp, ih]
+    · simp [List.dropWhile_cons, hp]
+
+theorem dropWhile_idem {α} (p : α → Bool) (l : List α) : (l.dropWhile p).dropWhile p = l.dropWhile p :=
+  dropWhile_weaken p p (fun _ h => h) l
+
+theorem linePaths_cons (st : List (Nat × Str)) (i : Nat) (t : Str) (rest : List (Nat × Str)) :
+    linePaths st ((i, t) :: rest) = anc (step st i t) :: linePaths (step st i t) rest := by
+  simp [linePaths]
+
+mutual
+theorem lpT (x : Tree) : ∀ (d : Nat) (st base : List (Nat × Str)) (rest : List Str),
+    (∀ p ∈ pathsT x, ∀ t ∈ p, NormalText t) → st.dropWhile (Deeper d) = base →
+    ∃ st', st'.dropWhile (Deeper d) = base ∧
+      linePaths st ((renderT d x ++ rest).filterMap normLine) =
+        (pathsT x).map (anc base ++ ·) ++ linePaths st' (rest.filterMap normLine) := by
+  match x with
+  | .node t cs =>
+    intro d st base rest hN hst
+    have ht : NormalText t := hN [t] (by simp [pathsT_node]) t (by simp)
+    have hcs : ∀ p ∈ pathsF cs, ∀ u ∈ p, NormalText u := fun p hp u hu =>
+      hN (t :: p) (by rw [pathsT_node]; exact List.mem_cons_of_mem _ (List.mem_map.mpr ⟨p, hp, rfl⟩)) u
+        (List.mem_cons_of_mem _ hu)
+    have hstep : step st (2 * d) t = (2 * d, t) :: base := by simp [step, ← hst]
+    have hst1 : ((2 * d, t) :: base).dropWhile (Deeper (d + 1)) = (2 * d, t) :: base := by
+      simp [Deeper]
+    obtain ⟨st', h1, h2⟩ := lpF cs (d + 1) ((2 * d, t) :: base) ((2 * d, t) :: base) rest hcs hst1
+    refine ⟨st', ?_, ?_⟩
+    · have hw := dropWhile_weaken (Deeper (d + 1)) (Deeper d)
+        (fun x h => by simp only [Deeper, decide_eq_true_eq] at h ⊢; omega) st'
+      rw [← hw, h1]
+      have hb : base.dropWhile (Deeper d) = base := by rw [← hst]; exact dropWhile_idem _ _
+      simp [Deeper]
+      simpa [Deeper] using hb
+    · rw [renderT_node, List.cons_append, List.filterMap_cons, normLine_blanks ht, linePaths_cons, hstep, h2,
+        pathsT_node]
+      simp [anc, List.map_map, Function.comp_def]
+theorem lpF (f : Forest) : ∀ (d : Nat) (st base : List (Nat × Str)) (rest : List Str),
+    (∀ p ∈ pathsF f, ∀ t ∈ p, NormalText t) → st.dropWhile (Deeper d) = base →
+    ∃ st', st'.dropWhile (Deeper d) = base ∧
+      linePaths st ((renderF d f ++ rest).filterMap normLine) =
+        (pathsF f).map (anc base ++ ·) ++ linePaths st' (rest.filterMap normLine) := by
+  match f with
+  | [] =>
+    intro d st base rest _ hst
+    exact ⟨st, hst, by simp [renderF_nil, pathsF_nil]⟩
+  | x :: r =>
+    intro d st base rest hN hst
+    have hx : ∀ p ∈ pathsT x, ∀ t ∈ p, NormalText t := fun p hp =>
+      hN p (by rw [pathsF_cons']; exact List.mem_append_left _ hp)
+    have hr : ∀ p ∈ pathsF r, ∀ t ∈ p, NormalText t := fun p hp =>
+      hN p (by rw [pathsF_cons']; exact List.mem_append_right _ hp)
+    obtain ⟨st1, h1, h2⟩ := lpT x d st base (renderF d r ++ rest) hx hst
+    obtain ⟨st2, h3, h4⟩ := lpF r d st1 base rest hr h1
+    refine ⟨st2, h3, ?_⟩
+    rw [renderF_cons, List.append_assoc, h2, h4, pathsF_cons']
+    simp
+end
+
+
+
+/-- Reading the printed lines back with the loader's own indentation rule gives exactly the
+hierarchical lines of the tree that was printed. -/
+theorem linePaths_render (f : Forest) (hN : ∀ p ∈ pathsF f, ∀ t ∈ p, NormalText t) :
+    linePaths [] ((render f).filterMap normLine) = pathsF f := by
+  obtain ⟨st', _, h⟩ := lpF f 0 [] [] [] hN rfl
+  simpa [render, linePaths] using h
+
 end Ccp.Diff
